@@ -75,7 +75,7 @@ RULE = ('systems: orthogonal / tilted / general (rotated, left-handed) cells wit
         'at random; cutoff uniform between two neighbouring cell measures (edges, face and body diagonals, Frobenius norm, '
         'sum of edges, widths, bounding-box extents and diagonal), or 1-3 longest body diagonals, or between two '
         'neighbouring values of the pair-distance spectrum, or the farthest pair +- 1e-6..5e-2. "elongated": cell >> '
-        'cutoff along ONE Cartesian axis (x, y, z in turn): 1030-5000 bins (thorough / broken: up to 70000) along it, the '
+        'cutoff along ONE Cartesian axis (x, y, z in turn): 1030-5000 bins (thorough / broken: up to 40000) along it, the '
         'other two cell dimensions 0.4-4 cutoffs, short vectors tilted along the long axis, rows permuted, long vector '
         'up or down the axis, all 8 pbc settings, 2-16 atoms in the last / first bins, in bins 2^m-2..2^m+2 for every 2^m '
         'below the bin count, at random, in pairs 0.5-1.2 cutoffs apart along the axis and across its periodic boundary. '
@@ -2687,11 +2687,11 @@ def _correspond(ctx):
     with tempfile.TemporaryDirectory(prefix='c03_') as tmpdir:
         for name, case in load_corpus():
             _correspond_case(ctx, case, 'corpus:' + name, tmpdir, True)
-        plan = [(gen_general, ctx.n(120, 2500)), (gen_grid, ctx.n(120, 3000)), (gen_edges, ctx.n(50, 1000)),
-                (gen_hunt, ctx.n(150, 4000)), (gen_outside, ctx.n(80, 1200)), (gen_shear, ctx.n(120, 2000)),
-                (gen_dense, ctx.n(12, 140)), (gen_fine, ctx.n(120, 3000)), (gen_nearcut, ctx.n(100, 2000)),
+        plan = [(gen_general, ctx.n(120, 2000)), (gen_grid, ctx.n(120, 2400)), (gen_edges, ctx.n(50, 800)),
+                (gen_hunt, ctx.n(150, 3000)), (gen_outside, ctx.n(80, 1000)), (gen_shear, ctx.n(120, 1600)),
+                (gen_dense, ctx.n(12, 140)), (gen_fine, ctx.n(120, 2400)), (gen_nearcut, ctx.n(100, 1600)),
                 (_gen_crystal_small, ctx.n(12, 150)), (gen_narrowbin, ctx.n(40, 1000)),
-                (gen_bigcut, ctx.n(100, 1500)), (gen_elongated, ctx.n(16, 500))]
+                (gen_bigcut, ctx.n(100, 1500)), (gen_elongated, ctx.n(16, 150))]
         import time
         ph = ctx.extra.setdefault('phase_seconds', {})
         for gen, count in plan:
@@ -3667,12 +3667,12 @@ def _search(ctx, broken):
     for name, case in load_corpus():
         _search_case(ctx, case, 'corpus', name, True)
     mult = 3 if broken else 1
-    plan = [('dense', gen_dense, ctx.n(40, 1500) * mult), ('shear', gen_shear, ctx.n(600, 10000) * mult),
-            ('hunt', gen_hunt, ctx.n(3200, 60000) * mult), ('general', gen_general, ctx.n(250, 8000) * mult),
-            ('grid', gen_grid, ctx.n(250, 8000) * mult), ('edges', gen_edges, ctx.n(100, 3000) * mult),
-            ('fine', gen_fine, ctx.n(500, 12000) * mult), ('nearcut', gen_nearcut, ctx.n(400, 10000) * mult),
+    plan = [('dense', gen_dense, ctx.n(40, 1500) * mult), ('shear', gen_shear, ctx.n(600, 8000) * mult),
+            ('hunt', gen_hunt, ctx.n(3200, 45000) * mult), ('general', gen_general, ctx.n(250, 6000) * mult),
+            ('grid', gen_grid, ctx.n(250, 6000) * mult), ('edges', gen_edges, ctx.n(100, 2400) * mult),
+            ('fine', gen_fine, ctx.n(500, 9000) * mult), ('nearcut', gen_nearcut, ctx.n(400, 8000) * mult),
             ('crystal', gen_crystal, ctx.n(60, 1000) * mult), ('narrowbin', gen_narrowbin, ctx.n(300, 6000) * mult),
-            ('bigcut', gen_bigcut, ctx.n(500, 10000) * mult), ('elongated', gen_elongated, ctx.n(150, 3000) * mult)]
+            ('bigcut', gen_bigcut, ctx.n(500, 8000) * mult), ('elongated', gen_elongated, ctx.n(150, 2400) * mult)]
     with tempfile.TemporaryDirectory(prefix='c03_') as tmpdir:
         import time
         ph = ctx.extra.setdefault('phase_seconds', {})
@@ -3697,7 +3697,7 @@ def _search(ctx, broken):
         if ctx.thorough or broken:
             # bin indices beyond 2^13 .. 2^16 along one axis (few atoms)
             for it in range(ctx.n(12, 120)):
-                case = gen_elongated(rng, it, nmin=5000, nmax=70000)
+                case = gen_elongated(rng, it, nmin=5000, nmax=40000)
                 _trace(_payload(case, stage='crash'))
                 _search_case(ctx, case, 'elongated', 'elongated-long', full=True, tmpdir=None)
                 if len(ctx.violations) >= 6:
